@@ -64,8 +64,8 @@ KWCONF_T = KWCONF + [("*#c",), ("amd64", "*", "~x86"), ("-", "amd64")]
 # (indent, separator before each keyword, trailing blanks)
 STYLES = [("", " ", ""), ("", "\t", ""), ("  ", "   ", "  "), ("\t", " \t ", " "), ("     ", " ", "")]
 # comment part appended after the trailing blanks; it brings its own leading whitespace
-COMMENTS = ["", "  # why", "\t#x * ^ -", " #c"]
-BLANKS = ["", "   ", "# standalone", "  # indented * ^", "\t"]
+COMMENTS = ["", "  # why", "\t#x * ^ -", " #c", "  # needs testing  ", " #t\t"]
+BLANKS = ["", "   ", "# standalone", "  # indented * ^", "\t", "# trailing blanks \t"]
 NS_, NC_ = len(STYLES), len(COMMENTS)
 
 
@@ -88,7 +88,7 @@ def line_shapes(tier):
 def reduced_shapes():
     out = []
     for ki, kws in enumerate(KWCONF):
-        for s, c in ((0, 0), (0, 1), (2, 0), (2, 1), (4, 3)):
+        for s, c in ((0, 0), (0, 1), (2, 0), (2, 1), (4, 3), (0, 4)):
             out.append(_line(ki, kws, s, c))
     return out + BLANKS[:1] + BLANKS[2:4]
 
